@@ -208,6 +208,7 @@ REBOUND_NAMES = [
     "math.sqrt -> symbolic square root (fork on negative radicand => ValueError)",
     "math.acos -> angle token theta with 0 <= theta <= pi, theta {<,=,>} pi/2 <=> cos {>,=,<} 0, theta = 0 <=> cos = 1, theta = pi <=> cos = -1, "
     "theta < 0.1 <=> cos > cos(0.1) (bracketed), antitone in the cosine; domain |cos| <= 1 is an obligation (ValueError otherwise)",
+    "math.atan2 -> angle token t in (-pi, pi] with the sign of z, exact values on the axes, and tokens of the same open half-plane ordered by the sign of the cross product",
 ]
 
 
@@ -221,7 +222,10 @@ def install_numeric_patches(rb):
     def sym_acos(x):
         return S.engine().acos(Sym(x))
 
-    for nm, fn in (("sqrt", sym_sqrt), ("acos", sym_acos)):
+    def sym_atan2(z, y):
+        return S.engine().atan2(Sym(z), Sym(y))
+
+    for nm, fn in (("sqrt", sym_sqrt), ("acos", sym_acos), ("atan2", sym_atan2)):
         if nm not in _MATH_ORIG:
             _MATH_ORIG[nm] = getattr(math, nm)
         w = _dispatch(nm, fn)
@@ -269,6 +273,7 @@ class Engine(object):
         self.notes = []
         self.path_ghosts = []
         self.acos_terms = {}
+        self.atan2_terms = []
         self.script_log = []
         self.log = {}
         self.on_call = {}
@@ -449,6 +454,25 @@ class Engine(object):
         self.fact_tags.append("def:acos")
         self.sqrt_cache[key] = th
         return th
+
+    def atan2(self, z, y):
+        """angle token for math.atan2(z, y) (assumption A3): a real t in (-pi, pi] whose sign follows z, with the exact values on the
+        axes, and ordered against earlier tokens of the same open half-plane by the sign of the cross product"""
+        t = self.fresh("atan2")
+        pi = _rv(self.PI)
+        tt, zz, yy = t.t, z.t, y.t
+        fs = [tt > -pi, tt <= pi, z3.Implies(zz > 0, z3.And(tt > 0, tt < pi)), z3.Implies(zz < 0, z3.And(tt < 0, tt > -pi)),
+              z3.Implies(z3.And(zz == 0, yy >= 0), tt == 0), z3.Implies(z3.And(zz == 0, yy < 0), tt == pi),
+              z3.Implies(z3.And(zz > 0, yy == 0), tt == pi / 2), z3.Implies(z3.And(zz < 0, yy == 0), tt == -pi / 2)]
+        for (ot, oz, oy) in self.atan2_terms:
+            cr = oy * zz - oz * yy  # cross(other, this) > 0  <=>  this is counter-clockwise of other
+            same_half = z3.Or(z3.And(zz > 0, oz > 0), z3.And(zz < 0, oz < 0))
+            fs.append(z3.Implies(same_half, z3.And((cr > 0) == (ot < tt), (cr == 0) == (ot == tt))))
+            # a ray on the positive / negative y... (z = 0) against an open half-plane is fixed by the ranges above
+        self.atan2_terms.append((tt, zz, yy))
+        self.facts.append(z3.And(*fs))
+        self.fact_tags.append("def:atan2")
+        return t
 
     # proof scaffolding ---------------------------------------------------
     def hint(self, label, f):
